@@ -187,6 +187,8 @@ def _shard_entry(args):
         return acc
     except BaseException:
         return ('ERROR', traceback.format_exc())
+    finally:
+        world.drop_scratch()
 
 
 def _cli_entry(args):
